@@ -92,6 +92,7 @@ def check_canaries(ctx, runs, ver, retries):
 
 def long_session(ctx: Ctx, n_sends, seed=0):
     s = sched.Session(version=3, retries=3, seed=seed)
+    s.frame = b"\xaa\x01"                # the LAN layer does not interpret frames; a short one keeps 66,000 pure-Python AES exchanges affordable
     try:
         s.call_auth("good")
         s.conn("ok")
@@ -120,6 +121,7 @@ def long_session(ctx: Ctx, n_sends, seed=0):
 def run(ctx: Ctx) -> int:
     q = ctx.quick
     # (a) the design: exhaustive
+    session.clause_reachability(ctx, "C07")
     session.mc(ctx, 3, 2, name="C07_mc_v3_r2_c2", calls=2, coverage=True)
     session.mc(ctx, 3, 2, name="C07_mc_v3_r2_c2_allclasses", calls=2, hs="HSAll", data="DataAll", fly=2)
     if not q:
